@@ -535,6 +535,8 @@ func checkC15(c *km.Ctx) {
 	_ = token.EQL
 	checkSQLArgKinds(c, "R-C15-2")
 	checkStmtTableKeys(c, "R-C15-2")
+	checkCacheWriters(c, "R-C15-4")
+	checkScanOrder(c, "R-C15-2")
 	checkSyncHandles(c)
 }
 
@@ -1194,4 +1196,264 @@ func countFieldSet(c *km.Ctx, g *ssa.Global, field string) int {
 		}
 	})
 	return n
+}
+
+// checkCacheWriters: who may write the offline cache. The cache mirrors the primary: its content changes only
+// through the synchronisation (copyDBIntoSQLite), the expiry clean-up that follows it and the creation of its
+// tables. Every other use of the cache handle reads (statements that are only queried). A write from a request
+// path - however well meant - makes the cache differ from the primary and is a profile change made while the
+// primary is unreachable.
+func checkCacheWriters(c *km.Ctx, rule string) {
+	writers := map[string]bool{"copyDBIntoSQLite": true, "cleanupDBData": true, "initFileDBSQLite": true, "initDB": true}
+	type use struct {
+		v  ssa.Value
+		fn *ssa.Function
+	}
+	var work []use
+	seen := map[ssa.Value]bool{}
+	for _, fn := range c.P.AllFuncs {
+		if fn.Pkg == nil || !pkgIsKMD(fn.Pkg) {
+			continue
+		}
+		km.Instrs(fn, func(in ssa.Instruction) {
+			if u, ok := in.(*ssa.UnOp); ok && u.Op == token.MUL && mentionsField(u, "cacheDB") && strings.HasSuffix(km.NamedTypeOf(u.Type()), "database/sql.DB") {
+				work = append(work, use{u, fn})
+			}
+		})
+	}
+	if len(work) == 0 {
+		c.R.AnchorLost(rule, "reads of the cache handle (field cacheDB)")
+		return
+	}
+	n := 0
+	bad := func(at ssa.Instruction, fn *ssa.Function, what string) {
+		n++
+		c.R.Add(rule, km.FuncName(fn), "write to the offline cache", posOf(c, at), "the cache changes only through the synchronisation, its clean-up and the creation of its tables", what, false)
+	}
+	stmtWrites := func(stmt ssa.Value) bool {
+		w := false
+		var walk func(v ssa.Value, d int)
+		walk = func(v ssa.Value, d int) {
+			if d > 4 || v.Referrers() == nil {
+				return
+			}
+			for _, ref := range *v.Referrers() {
+				switch x := ref.(type) {
+				case *ssa.Extract:
+					if x.Index == 0 {
+						walk(x, d+1)
+					}
+				case ssa.CallInstruction:
+					if len(x.Common().Args) > 0 && km.Unwrap(x.Common().Args[0]) == v {
+						if m := km.CalleeFull(x.Common()); strings.HasSuffix(m, ".Exec") || strings.HasSuffix(m, ".ExecContext") {
+							w = true
+						}
+					}
+				}
+			}
+		}
+		walk(stmt, 0)
+		return w
+	}
+	for len(work) > 0 {
+		u := work[0]
+		work = work[1:]
+		if seen[u.v] || u.v.Referrers() == nil {
+			continue
+		}
+		seen[u.v] = true
+		inWriter := writers[km.NameOf(u.fn)]
+		for _, ref := range *u.v.Referrers() {
+			ci, ok := ref.(ssa.CallInstruction)
+			if !ok {
+				if phi, isPhi := ref.(*ssa.Phi); isPhi {
+					work = append(work, use{phi, u.fn})
+				}
+				continue
+			}
+			cc := ci.Common()
+			name := km.CalleeFull(cc)
+			args := cc.Args
+			if len(args) > 0 && km.Unwrap(args[0]) == u.v && strings.HasPrefix(name, "(*database/sql.DB).") {
+				switch m := strings.TrimPrefix(name, "(*database/sql.DB)."); m {
+				case "Begin", "BeginTx", "Exec", "ExecContext":
+					if !inWriter {
+						bad(ci, u.fn, m+" on the cache handle in "+km.NameOf(u.fn))
+					}
+				case "Prepare", "PrepareContext":
+					if cl, isCall := ci.(*ssa.Call); isCall && !inWriter && stmtWrites(cl) {
+						bad(ci, u.fn, "a prepared statement on the cache handle is executed in "+km.NameOf(u.fn))
+					}
+				}
+				continue
+			}
+			// handed to a function of the module
+			g := km.StaticCallee(cc)
+			if g == nil || !c.InModule(g) || len(g.Blocks) == 0 || writers[km.NameOf(g)] {
+				continue
+			}
+			for i, a := range args {
+				if km.Unwrap(a) == u.v && i < len(g.Params) {
+					work = append(work, use{g.Params[i], g})
+				}
+			}
+		}
+	}
+	if n == 0 {
+		c.R.Add(rule, "cmd/keymasterd", "writers of the offline cache", "cmd/keymasterd/storage.go", "the cache changes only through the synchronisation, its clean-up and the creation of its tables", sprintf("%d uses of the handle followed; no other writer", len(seen)), true)
+	}
+}
+
+// checkScanOrder: the destinations of a Scan are in the order of the columns the query selects. Two columns of the
+// same type can be crossed without any error (expiration_epoch / update_epoch): where a destination carries the
+// name of a selected column, it has to sit at that column's position.
+func checkScanOrder(c *km.Ctx, rule string) {
+	norm := func(s string) string { return strings.ToLower(strings.ReplaceAll(s, "_", "")) }
+	destName := func(v ssa.Value) string {
+		switch x := km.Unwrap(v).(type) {
+		case *ssa.Alloc:
+			return x.Comment
+		case *ssa.FieldAddr:
+			return fieldNameOf(x)
+		}
+		return ""
+	}
+	selected := func(text string) []string {
+		lt := strings.ToLower(text)
+		i := strings.Index(lt, "select ")
+		j := strings.Index(lt, " from ")
+		if i < 0 || j < i {
+			return nil
+		}
+		var cols []string
+		for _, p := range strings.Split(text[i+len("select "):j], ",") {
+			cols = append(cols, strings.TrimSpace(p))
+		}
+		return cols
+	}
+	// the query text behind a rows / row value: the call that produced it, followed through one parameter
+	var textsOf func(v ssa.Value, d int) []string
+	textsOf = func(v ssa.Value, d int) []string {
+		v = km.CellOrigin(km.Unwrap(v))
+		if ex, ok := v.(*ssa.Extract); ok {
+			v = ex.Tuple
+		}
+		switch x := v.(type) {
+		case *ssa.Call:
+			if _, m, ok := sqlRecv(km.CalleeFull(x.Common())); ok && strings.HasPrefix(m, "Query") {
+				a := km.CallArgs(x.Common())
+				kind, _, _ := sqlRecv(km.CalleeFull(x.Common()))
+				if kind == "Stmt" {
+					if pc, idx := callRes(km.Unwrap(a[0])); pc != nil && idx == 0 {
+						pa := km.CallArgs(pc.Common())
+						return stmtTexts(c, resolveThroughFrames(pa[len(pa)-1]))
+					}
+					return nil
+				}
+				for _, cand := range a[1:] {
+					if cand != nil && types.Identical(cand.Type().Underlying(), types.Typ[types.String]) {
+						return stmtTexts(c, cand)
+					}
+				}
+			}
+		case *ssa.Parameter:
+			if d > 1 {
+				return nil
+			}
+			fn := x.Parent()
+			idx := -1
+			for i, q := range fn.Params {
+				if q == x {
+					idx = i
+				}
+			}
+			var out []string
+			for _, cs := range c.G.Callers[fn] {
+				ci, ok := cs.Instr.(ssa.CallInstruction)
+				if !ok || idx < 0 {
+					return nil
+				}
+				a := callArgsAsParams(ci, fn)
+				if idx >= len(a) {
+					return nil
+				}
+				out = append(out, textsOf(a[idx], d+1)...)
+			}
+			return out
+		}
+		return nil
+	}
+	n := 0
+	for _, fn := range c.P.AllFuncs {
+		if fn.Pkg == nil || !pkgIsKMD(fn.Pkg) {
+			continue
+		}
+		for _, ci := range km.CallsIn(fn) {
+			name := km.CalleeFull(ci.Common())
+			if name != "(*database/sql.Rows).Scan" && name != "(*database/sql.Row).Scan" {
+				continue
+			}
+			a := ci.Common().Args
+			if len(a) < 2 {
+				continue
+			}
+			var dests []ssa.Value
+			if sl, isSl := km.Unwrap(a[1]).(*ssa.Slice); isSl {
+				if al, isA := sl.X.(*ssa.Alloc); isA {
+					tmp := map[int64]ssa.Value{}
+					for _, ref := range *al.Referrers() {
+						if ia, ok := ref.(*ssa.IndexAddr); ok {
+							i, isC := km.ConstInt(ia.Index)
+							for _, r2 := range *ia.Referrers() {
+								if st, ok := r2.(*ssa.Store); ok && isC {
+									tmp[i] = st.Val
+								}
+							}
+						}
+					}
+					for i := int64(0); i < int64(len(tmp)); i++ {
+						dests = append(dests, tmp[i])
+					}
+				}
+			}
+			if len(dests) < 2 {
+				continue
+			}
+			for _, text := range textsOf(a[0], 0) {
+				cols := selected(text)
+				if len(cols) != len(dests) {
+					continue
+				}
+				n++
+				bad := ""
+				for i, d := range dests {
+					dn := norm(destName(d))
+					if dn == "" || dn == norm(cols[i]) {
+						continue
+					}
+					for j, col := range cols {
+						if j != i && dn == norm(col) {
+							bad = sprintf("destination %d (%s) receives column %s; column %s goes to destination %d", i+1, destName(d), cols[i], col, j+1)
+						}
+					}
+				}
+				c.R.Add(rule, km.FuncName(fn), "Scan of "+clipS(strings.Join(cols, ","), 80), posOf(c, ci), "a destination named after a selected column sits at that column's position", bad, bad == "")
+			}
+		}
+	}
+	if n == 0 {
+		c.R.AnchorLost(rule, "Scan calls with a known query text")
+	}
+}
+
+// callArgsAsParams: the arguments of a static call aligned with the callee's parameters (receiver first).
+func callArgsAsParams(ci ssa.CallInstruction, fn *ssa.Function) []ssa.Value {
+	cc := ci.Common()
+	if cc.IsInvoke() {
+		return nil
+	}
+	if f, ok := cc.Value.(*ssa.Function); ok && f == fn {
+		return cc.Args
+	}
+	return nil
 }
